@@ -324,3 +324,10 @@ def r5(ctx: Ctx) -> None:
                 for l in inner:
                     _cap_loop(ctx, f, l, "max_high_frequency_orders", "high-frequency phase")
     ctx.require(n >= 2, f"{HO}: rate gate paths not found")
+
+
+@rule("C09.H1", "mechanism shared with C18: session switches, caps and the submission rate are read from their configuration keys (new and deprecated spellings alike)", "T8/T9 (same rule as C18.R5)", floor=2)
+def h1(ctx: Ctx) -> None:
+    from .c18 import r5 as session_keys_rule
+
+    session_keys_rule(ctx)
